@@ -9,6 +9,7 @@ mod eng_daemon;
 mod eng_gpu;
 mod eng_kern;
 mod eng_sender;
+mod eng_sticky;
 mod eng_server;
 mod eng_session;
 mod eng_txn;
@@ -90,6 +91,10 @@ fn main() {
         "client" => {
             let cases = read_cases(&arg(&args, "--cases").expect("--cases"));
             eng_client::run(&cases, &mut trace, seed);
+        }
+        "sticky" => {
+            let cases = read_cases(&arg(&args, "--cases").expect("--cases"));
+            eng_sticky::run(&cases, &mut trace, seed);
         }
         "sender" => {
             let cases = read_cases(&arg(&args, "--cases").expect("--cases"));
